@@ -120,8 +120,6 @@ class _VersionMatch(GenericEquality, restriction.base):
     @staticmethod
     def _convert_ops(inst):
         if inst.negate:
-            if inst.droprev:
-                return inst.vals
             return tuple(sorted({-1, 0, 1}.difference(inst.vals)))
         return inst.vals
 
